@@ -535,6 +535,19 @@ def run_meth(case):
         lens = [len(items(a)) for a in cols if is_list(a)]
         out = {}
         try:
+            if case['name'] == 'dup':          # n references to the same channel list
+                cl = _state['ugn'].ChannelList([ctx.value(x) for x in case['self']])
+                n = case['args'][0] if case['args'] else 2
+                out['ret'] = terms_of({'chan': [{'leaf': cl}] * n}, ctx)
+                out['nunits'] = len(ctx.created())
+                return out
+            if case['name'] == 'sum':          # ((0 + x0) + x1) + … with the real operator
+                acc = 0
+                for x in case['self']:
+                    acc = acc + ctx.value(x)
+                out['ret'] = terms_of({'leaf': acc}, ctx)
+                out['nunits'] = len(ctx.created())
+                return out
             if 0 in lens:
                 raise LawError
             rows = []
